@@ -218,7 +218,11 @@ func c03() []*Ob {
 					if fn == nil {
 						continue
 					}
-					calls := CallsIn(fn, empty)
+					// the terminator may be written by the function itself or by a private helper that always writes it
+					calls := CallsIn(fn, c.P.MustCall(empty))
+					if !it.want {
+						calls = CallsIn(fn, c.P.MayCall(empty))
+					}
 					if it.want {
 						ok := len(calls) == 1
 						if ok {
